@@ -2,16 +2,16 @@
 
  (a) purity: AddressFilter.match and everything it calls (level / range matchers, the address component
      properties) assign no attribute, global or container; what they read is the filter's own parsed state, the
-     address, GroupAddress.address_format and constants; the only foreign callees are fnmatch and
+     address, GroupAddress.address_format and constants; the only foreign callees are fnmatchcase and
      parse_device_group_address — so the verdict depends on pattern, address and notation only.
  (b) level pairing: a pattern of 3 / 2 / 1 level filters is matched against (main, middle, sub) / (main, sub) /
      (sub = raw in free notation), the i-th filter against the i-th component, all conjoined; a level filter is the
      disjunction of its comma-separated ranges.
  (c) range denotation, by cell evaluation of Range._parse_pattern and its helpers over abstract pattern forms
      ('*', 'N', 'a-b', '-b', 'a-') with representative bounds for every ordering the code distinguishes (a ? b,
-     each ? MAX_FREE): the parsed (range_from, range_to) equals the denoted interval — open ends extend to 0 /
-     MAX_FREE, reversed ranges are normalised, bounds are clamped to 0..MAX_FREE — and Range.match(d) is
-     range_from <= d <= range_to.
+     each ? MAX_FREE): membership Range.match(d) at every cut point equals membership in the denoted interval
+     intersected with 0..MAX_FREE - open ends extend to 0 / the maximum, reversed ranges are normalised, a value or
+     range above the address space denotes nothing (compared by membership, not by the stored representation).
 """
 
 from __future__ import annotations
@@ -208,34 +208,36 @@ def range_tables(chk: Check, repo: Repo) -> None:
         chk.unit(rng.methods[m])
     reps = [0, 1, 7, 8, 9, mf - 1, mf, mf + 1, mf + 4000]  # every ordering a comparison (also an off-by-one variant of it) can distinguish: equal / adjacent / apart, at / around / beyond the maximum
 
-    def clamp(x: int) -> int:
-        return max(0, min(mf, x))
-    forms: list[tuple[Pat, tuple[int, int]]] = [(Pat("star"), (0, mf))]
-    for a in reps:
-        forms.append((Pat("digits", a), (clamp(a), clamp(a))))
-        forms.append((Pat("range", None, a), (0, clamp(a))))
-        forms.append((Pat("range", a, None), (min(clamp(a), mf), mf)))
-    for a, b in product(reps, reps):
-        lo, hi = sorted((clamp(a), clamp(b)))
-        forms.append((Pat("range", a, b), (lo, hi)))
+    INF_ = 10 ** 9
+    # the denotation the property text gives a pattern: the interval of values, reversed bounds normalised, an open end
+    # extending to the maximum - intersected with the address space 0..MAX_FREE.  A value or range above the address
+    # space therefore denotes nothing (not {MAX_FREE}).  Compared by membership at the cut points, not by the
+    # representation the parser happens to store.
+    forms: list[tuple[Pat, tuple[int, int]]] = [(Pat("star"), (0, INF_))]
+    for a_ in reps:
+        forms.append((Pat("digits", a_), (a_, a_)))
+        forms.append((Pat("range", None, a_), (0, a_)))
+        forms.append((Pat("range", a_, None), (a_, INF_)))
+    for a_, b_ in product(reps, reps):
+        lo, hi = sorted((a_, b_))
+        forms.append((Pat("range", a_, b_), (lo, hi)))
     site = rng.methods["_parse_pattern"].site()
     n = 0
-    for pat, want in forms:
+    for pat, (lo, hi) in forms:
         obj = {"range_from": 0, "range_to": 0}
         try:
             run_method(repo, rng, "_parse_pattern", obj, [pat])
-            got = (obj["range_from"], obj["range_to"])
         except _Raise:
-            got = ("raises",)
+            chk.ob("range-denotes-the-interval", site, False, f"pattern {pat!r}: refused", key=f"range|{pat!r}")
+            continue
         n += 1
-        chk.ob("range-denotes-the-interval", site, got == want, f"pattern {pat!r}: parsed as {got}, denotes {want}", key=f"range|{pat!r}")
-        if got == want:
-            # membership at the cut points
-            for d in sorted({0, want[0] - 1, want[0], want[1], want[1] + 1, mf} & set(range(0, mf + 1))):
-                m = run_method(repo, rng, "match", dict(zip(("range_from", "range_to"), got)), [d])
-                if bool(m) != (want[0] <= d <= want[1]):
-                    chk.ob("range-match-is-interval-membership", rng.methods["match"].site(), False, f"pattern {pat!r}: match({d}) = {m}", key=f"member|{pat!r}|{d}")
-    chk.ob("range-match-is-interval-membership", rng.methods["match"].site(), True, f"Range.match agrees with range_from <= d <= range_to at every cut point of {n} pattern cells", key="member|summary")
+        cuts = sorted({0, 1, lo - 1, lo, lo + 1, hi - 1, hi, hi + 1, mf - 1, mf} & set(range(0, mf + 1)))
+        wrong = []
+        for d in cuts:
+            m = run_method(repo, rng, "match", dict(obj), [d])
+            if bool(m) != (lo <= d <= hi):
+                wrong.append((d, bool(m)))
+        chk.ob("range-denotes-the-interval", site, not wrong, f"pattern {pat!r}: parsed as ({obj['range_from']}, {obj['range_to']}); membership at the cut points {cuts[:4]}..{cuts[-2:]} " + ("agrees with the interval [{}, {}] within 0..{}".format(lo, 'max' if hi == INF_ else hi, mf) if not wrong else f"differs from the interval [{lo}, {'max' if hi == INF_ else hi}] at {wrong[:4]} (address, matched)"), key=f"range|{pat!r}")
     chk.count("range pattern cells", n)
 
 
@@ -289,7 +291,7 @@ def purity(chk: Check, repo: Repo) -> None:
     rng, lf = repo.cls(M, "AddressFilter.Range"), repo.cls(M, "AddressFilter.LevelFilter")
     ga = repo.cls("xknx.telegram.address", "GroupAddress")
     funcs = [af.methods[n] for n in ("match", "_match_level3", "_match_level2", "_match_free")] + [rng.methods["match"], lf.methods["match"]] + [ga.methods[n] for n in ("main", "middle", "sub")]
-    allowed_calls = {"fnmatch", "parse_device_group_address", "isinstance", "bool", "any", "len", "ConnectionError"}
+    allowed_calls = {"fnmatchcase", "parse_device_group_address", "isinstance", "bool", "any", "len", "ConnectionError"}
     for f in funcs:
         chk.unit(f)
         writes = [ast.unparse(n)[:60] for n in walk_local(f.node) if isinstance(n, (ast.Assign, ast.AugAssign, ast.Delete, ast.Global, ast.Nonlocal)) and any(isinstance(t, (ast.Attribute, ast.Subscript)) and isinstance(getattr(t, "ctx", None), (ast.Store, ast.Del)) for t in ast.walk(n)) or isinstance(n, (ast.Global, ast.Nonlocal))]
@@ -340,4 +342,4 @@ def run(chk: Check, repo: Repo) -> None:
     pairing(chk, repo)
     range_tables(chk, repo)
     chk.rule("E5 effect census over the matcher's call tree; structural pairing of level filters and address components; E7 cell evaluation of the range parser over abstract pattern forms and every ordering of bounds it can distinguish")
-    chk.assume("fnmatch is a pure function of its two arguments; decimal text denotes its integer (C01)")
+    chk.assume("fnmatchcase is a pure function of its two arguments (fnmatch is not: it folds case through os.path.normcase, which depends on the platform); decimal text denotes its integer (C01)")
